@@ -852,6 +852,8 @@ impl LdapConnAsync {
                 },
                 resp = self.stream.next() => {
                     let (id, (tag, controls)) = match resp {
+                        // the StartTLS exchange can't go on without the peer
+                        None if matches!(mode, LoopMode::SingleOp) => return Err(LdapError::EndOfStream),
                         None => break,
                         Some(Err(e)) => {
                             warn!("socket receive error: {}", e);
